@@ -224,7 +224,8 @@ PROPS = {
     },
     "C04": {
         "proof_modules": ["GrolProofs.Props.C04"],
-        "theorems": ["Grol.E.C04.off_get", "Grol.E.C04.off_set"],
+        "theorems": ["Grol.E.C04.off_get", "Grol.E.C04.off_set", "Grol.E.C04.replay", "Grol.E.C04.store_condition",
+                     "Grol.E.C04.set_get", "Grol.E.C04.get_pure"],
         "suites": [["eval", "C04"]],
         "rule": EVAL_RULE + " C04 statement: per input, output/value/error/panic are identical with the cache on and off (both register settings).",
         "trusted_base": EVAL_TB,
